@@ -58,10 +58,27 @@ def _one(nodes, what):
 
 def simple_search(tree):
     fn = find_def(tree, 'SearchTask._simple_search')
-    ifs = [n for n in ast.walk(fn) if isinstance(n, ast.If)
-           and len(n.body) == 1 and isinstance(n.body[0], ast.Expr)
-           and ast.unparse(n.body[0].value) ==
-           'self._flush_results_buffer()']
+
+    def flush_ifs(f):
+        return [n for n in ast.walk(f) if isinstance(n, ast.If)
+                and len(n.body) == 1 and isinstance(n.body[0], ast.Expr)
+                and ast.unparse(n.body[0].value) ==
+                'self._flush_results_buffer()']
+    ifs = flush_ifs(fn)
+    if not ifs:
+        # the append-and-flush block may live in a private helper of the
+        # class that _simple_search calls (one level)
+        for n in ast.walk(fn):
+            if isinstance(n, ast.Call) and \
+                    isinstance(n.func, ast.Attribute) and \
+                    ast.unparse(n.func.value) == 'self' and \
+                    n.func.attr.startswith('_') and \
+                    n.func.attr != '_flush_results_buffer':
+                try:
+                    ifs += flush_ifs(find_def(tree,
+                                              'SearchTask.' + n.func.attr))
+                except Untranslatable:
+                    pass
     test = _one(ifs, "`if ...: self._flush_results_buffer()` in "
                 "_simple_search").test
     tr = Tr(subst={'len(self.results_buffer)':
@@ -81,9 +98,10 @@ def flush(tree):
         raise Untranslatable("_flush_results_buffer: expected `limit = ...` "
                              "followed by one while loop")
     init, loop = body
-    if ast.unparse(init.targets[0]) != 'limit' or len(init.targets) != 1:
+    if len(init.targets) != 1 or not isinstance(init.targets[0], ast.Name):
         raise Untranslatable("_flush_results_buffer: first statement must "
-                             "assign `limit`")
+                             "assign the batch-size local")
+    lim = init.targets[0].id            # `limit`, whatever it is called
     tr = Tr(attrs={'QueueTransitBuffer.MAX': 'transit_max'})
     t_init, ty = tr.expr(init.value)
     if ty != 'Z':
@@ -100,7 +118,7 @@ def flush(tree):
             ast.unparse(tr_.handlers[0].type) != 'IndexError':
         raise Untranslatable("_flush_results_buffer: expected try/except "
                              "IndexError only")
-    names = {'limit': 'limit'}
+    names = {lim: 'limit'}
     slices = [n for n in ast.walk(tr_) if isinstance(n, ast.Subscript)
               and ast.unparse(n.value) == 'self.results_buffer']
     sl = _one(slices, "subscript of self.results_buffer").slice
@@ -127,11 +145,11 @@ def flush(tree):
     t_pop, _ = Tr(names=names).expr(pbody[0].value.args[0])
     hbody = _strip_logs(tr_.handlers[0].body)
     if len(hbody) != 1 or not isinstance(hbody[0], ast.AugAssign) or \
-            ast.unparse(hbody[0].target) != 'limit':
+            ast.unparse(hbody[0].target) != lim:
         raise Untranslatable("_flush_results_buffer: the IndexError handler "
                              "must be one `limit <op>= <expr>`")
     t_h, _ = Tr(names=names).expr(
-        ast.BinOp(left=ast.Name(id='limit', ctx=ast.Load()),
+        ast.BinOp(left=ast.Name(id=lim, ctx=ast.Load()),
                   op=hbody[0].op, right=hbody[0].value))
     return (
         f"(* {ast.unparse(init)} *)\n"
@@ -309,12 +327,239 @@ def apply_single(tree):
         f"  {hdr} ({val(fin[0])}, {val(fin[1])}).\n")
 
 
+def _is_compile_of(e, var):
+    return isinstance(e, ast.Call) and ast.unparse(e.func) == 're.compile' \
+        and len(e.args) == 1 and not e.keywords \
+        and ast.unparse(e.args[0]) == var
+
+
+def _patterns_branch(stmts):
+    """ classify a branch of SearchDef.__init__'s pattern handling:
+    'single'  self.patterns = [re.compile(pattern)]
+    'many'    self.patterns = [re.compile(p) for p in pattern]      or
+              self.patterns = []; for p in pattern:
+                                      self.patterns.append(re.compile(p))
+    (order of `pattern` preserved in both forms) """
+    stmts = _strip_logs(stmts)
+    if len(stmts) == 1 and isinstance(stmts[0], ast.Assign) and \
+            ast.unparse(stmts[0].targets[0]) == 'self.patterns':
+        v = stmts[0].value
+        if isinstance(v, ast.List) and len(v.elts) == 1 and \
+                _is_compile_of(v.elts[0], 'pattern'):
+            return 'single'
+        if isinstance(v, ast.ListComp) and len(v.generators) == 1:
+            g = v.generators[0]
+            if not g.ifs and not g.is_async and \
+                    ast.unparse(g.iter) == 'pattern' and \
+                    isinstance(g.target, ast.Name) and \
+                    _is_compile_of(v.elt, g.target.id):
+                return 'many'
+    if len(stmts) == 2 and isinstance(stmts[0], ast.Assign) and \
+            ast.unparse(stmts[0]) == 'self.patterns = []' and \
+            isinstance(stmts[1], ast.For) and not stmts[1].orelse and \
+            ast.unparse(stmts[1].iter) == 'pattern' and \
+            isinstance(stmts[1].target, ast.Name):
+        body = _strip_logs(stmts[1].body)
+        if len(body) == 1 and isinstance(body[0], ast.Expr) and \
+                isinstance(body[0].value, ast.Call) and \
+                ast.unparse(body[0].value.func) == 'self.patterns.append' \
+                and len(body[0].value.args) == 1 and \
+                _is_compile_of(body[0].value.args[0], stmts[1].target.id):
+            return 'many'
+    raise Untranslatable("SearchDef.__init__: unrecognised way of building "
+                         "self.patterns: " +
+                         '; '.join(ast.unparse(n) for n in stmts)[:200])
+
+
+def searchdef_run(tree):
+    """ the test guarding the hint pre-check of SearchDef.run, and the test
+    that leaves the pattern loop """
+    fn = find_def(tree, 'SearchDef.run')
+    body = _body(fn)
+    gates = [n for n in body if isinstance(n, ast.If)
+             and 'self.hint' in ast.unparse(n.test)]
+    gate = _one(gates, "`if ... self.hint ...` in SearchDef.run")
+    inner = [n for n in ast.walk(gate) if isinstance(n, ast.Call)
+             and ast.unparse(n.func) == 'self.hint.search']
+    _one(inner, "self.hint.search(..) under the hint test")
+    tr = Tr(subst={'self.hint': ('has_hint', 'bool', ['has_hint']),
+                   'len(self.patterns)': ('npatterns', 'Z', ['npatterns'])},
+            bools={'has_hint'})
+    # only the part of the test that does not involve the search itself
+    test = gate.test
+    if isinstance(test, ast.BoolOp) and isinstance(test.op, ast.And):
+        parts = [v for v in test.values
+                 if 'self.hint.search' not in ast.unparse(v)]
+        if not parts:
+            raise Untranslatable("SearchDef.run: hint test without gate")
+        test = parts[0] if len(parts) == 1 else \
+            ast.BoolOp(op=ast.And(), values=parts)
+    g = tr.cond(test)
+    loops = [n for n in body if isinstance(n, ast.For)
+             and ast.unparse(n.iter) == 'self.patterns']
+    loop = _one(loops, "`for .. in self.patterns` in SearchDef.run")
+    brk = [n for n in loop.body if isinstance(n, ast.If)
+           and any(isinstance(x, ast.Break) for x in n.body)]
+    b = _one(brk, "`if ..: break` in the pattern loop")
+    if not isinstance(b.test, ast.Name):
+        raise Untranslatable("SearchDef.run: the loop must break on the "
+                             "truth of the match")
+    t = Tr(names={b.test.id: 'matched'}, bools={'matched'}).cond(b.test)
+    return (
+        f"(* if {ast.unparse(test)}: <hint pre-check> *)\n"
+        "Definition searchdef_run_hint_gate (has_hint : bool) "
+        f"(npatterns : Z) : bool :=\n  {g}.\n"
+        f"(* if {ast.unparse(b.test)}: break *)\n"
+        f"Definition searchdef_run_leaves_loop (matched : bool) : bool := "
+        f"{t}.\n")
+
+
+def searchdef_init(tree):
+    fn = find_def(tree, 'SearchDef.__init__')
+    body = _body(fn)
+    ifs = [n for n in body if isinstance(n, ast.If)
+           and 'isinstance(pattern, list)' in ast.unparse(n.test)]
+    pif = _one(ifs, "`if ... isinstance(pattern, list)` in "
+               "SearchDef.__init__")
+    cond = Tr(subst={'isinstance(pattern, list)':
+                     ('is_list', 'bool', ['is_list'])},
+              bools={'is_list'}).cond(pif.test)
+    kinds = {'single': '[compile single]', 'many': 'map compile many'}
+    a, b = _patterns_branch(pif.body), _patterns_branch(pif.orelse)
+    if {a, b} != {'single', 'many'}:
+        raise Untranslatable("SearchDef.__init__: the two branches must "
+                             "handle a single pattern and a list")
+    # hint: stored as given, compiled when truthy
+    hint_ifs = [n for n in body if isinstance(n, ast.If)
+                and ast.unparse(n.test) == 'hint']
+    hif = _one(hint_ifs, "`if hint:` in SearchDef.__init__")
+    hb = _strip_logs(hif.body)
+    if hif.orelse or len(hb) != 1 or \
+            ast.unparse(hb[0]) != 'self.hint = re.compile(hint)':
+        raise Untranslatable("SearchDef.__init__: expected `if hint: "
+                             "self.hint = re.compile(hint)`")
+    plain = [n for n in body if isinstance(n, ast.Assign)
+             and ast.unparse(n.targets[0]) == 'self.hint']
+    if [ast.unparse(n.value) for n in plain] != ['hint'] or \
+            body.index(plain[0]) > body.index(hif):
+        raise Untranslatable("SearchDef.__init__: expected `self.hint = "
+                             "hint` before the compilation")
+    hcond = Tr(names={'hint': 'hint_truthy'},
+               bools={'hint_truthy'}).cond(hif.test)
+    return (
+        f"(* {ast.unparse(pif.test)}: ... *)\n"
+        "Definition searchdef_patterns {P C : Type} (compile : P -> C) "
+        "(is_list : bool)\n    (single : P) (many : list P) : list C :=\n"
+        f"  if {cond} then {kinds[a]} else {kinds[b]}.\n"
+        "(* self.hint = hint; if hint: self.hint = re.compile(hint) *)\n"
+        "Definition searchdef_hint_compiled (hint_truthy : bool) : bool := "
+        f"{hcond}.\n")
+
+
+def searchdefbase(tree):
+    fn = find_def(tree, 'SearchDefBase.__init__')
+    assigns = [n for n in _body(fn) if isinstance(n, ast.Assign)
+               and ast.unparse(n.targets[0]) == 'self._constraints']
+    a = _one(assigns, "assignment to self._constraints")
+    if ast.unparse(a.value) not in ('constraints or {}', 'constraints or []',
+                                    'constraints or ()'):
+        raise Untranslatable("SearchDefBase.__init__: expected "
+                             "`self._constraints = constraints or {}`")
+    prop = find_def(tree, 'SearchDefBase.constraints')
+    pb = _body(prop)
+    if len(pb) != 1 or not isinstance(pb[0], ast.Return) or \
+            not isinstance(pb[0].value, ast.DictComp):
+        raise Untranslatable("SearchDefBase.constraints: expected one "
+                             "`return {...: ... for ...}`")
+    dc = pb[0].value
+    if len(dc.generators) != 1:
+        raise Untranslatable("SearchDefBase.constraints: one generator")
+    g = dc.generators[0]
+    if g.ifs or g.is_async or not isinstance(g.target, ast.Name) or \
+            ast.unparse(g.iter) != 'self._constraints' or \
+            ast.unparse(dc.key) != f"{g.target.id}.id" or \
+            ast.unparse(dc.value) != g.target.id:
+        raise Untranslatable("SearchDefBase.constraints: expected "
+                             "{c.id: c for c in self._constraints}")
+    idf = find_def(tree, 'SearchDefBase.id')
+    decos = [ast.unparse(d) for d in idf.decorator_list]
+    if decos != ['cached_property']:
+        raise Untranslatable("SearchDefBase.id must be a cached_property "
+                             "(one identity per object)")
+    return (
+        f"(* {ast.unparse(pb[0])} - the items inserted, in order *)\n"
+        "Definition searchdef_constraints_items {C : Type} (cid : C -> Z) "
+        "(given : list C)\n    : list (Z * C) := "
+        "map (fun c => (cid c, c)) given.\n"
+        "(* SearchDefBase.id is a cached_property: computed once per "
+        "object *)\n"
+        "Definition searchdef_id_cached : bool := true.\n")
+
+
+def task_init(tree):
+    fn = find_def(tree, 'SearchTask.__init__')
+    body = _body(fn)
+    bufs = [n for n in body if isinstance(n, ast.Assign)
+            and ast.unparse(n.targets[0]) == 'self.results_buffer']
+    b = _one(bufs, "assignment to self.results_buffer")
+    if not isinstance(b.value, ast.List):
+        raise Untranslatable("SearchTask.__init__: results_buffer must "
+                             "start as a list literal")
+    ifs = [n for n in body if isinstance(n, ast.If)]
+    dif = _one(ifs, "`if` in SearchTask.__init__")
+    db = _strip_logs(dif.body)
+    if dif.orelse or len(db) != 1 or ast.unparse(db[0]) != \
+            "self.decode_kwargs['errors'] = decode_errors":
+        raise Untranslatable("SearchTask.__init__: expected `if ..: "
+                             "self.decode_kwargs['errors'] = decode_errors`")
+    kws = [n for n in body if isinstance(n, ast.Assign)
+           and ast.unparse(n.targets[0]) == 'self.decode_kwargs']
+    if [ast.unparse(n.value) for n in kws] != ['{}']:
+        raise Untranslatable("SearchTask.__init__: decode_kwargs must "
+                             "start empty")
+    cond = Tr(names={'decode_errors': 'decode_errors_truthy'},
+              bools={'decode_errors_truthy'}).cond(dif.test)
+    rm = find_def(tree, 'SearchTaskResultsManager.__init__')
+    rifs = [n for n in _body(rm) if isinstance(n, ast.If)]
+    rif = _one(rifs, "`if` in SearchTaskResultsManager.__init__")
+    rb = _strip_logs(rif.body)
+    if rif.orelse or len(rb) != 1 or not isinstance(rb[0], ast.Raise):
+        raise Untranslatable("SearchTaskResultsManager.__init__: expected "
+                             "`if ..: raise ..`")
+    rcond = Tr(subst={'results_queue is not None':
+                      ('queue_given', 'bool', ['queue_given']),
+                      'results_collection is not None':
+                      ('collection_given', 'bool', ['collection_given'])},
+               bools={'queue_given', 'collection_given'}).cond(rif.test)
+    for prop, attr in (('results_store', '_results_store'),
+                       ('results_queue', '_results_queue'),
+                       ('results_collection', '_results_collection')):
+        pf = find_def(tree, 'SearchTaskResultsManager.' + prop)
+        pb = _body(pf)
+        if len(pb) != 1 or ast.unparse(pb[0]) != f"return self.{attr}":
+            raise Untranslatable(f"SearchTaskResultsManager.{prop} must "
+                                 f"return self.{attr}")
+    return (
+        f"(* {ast.unparse(b)} *)\n"
+        f"Definition task_initial_buffer_len : Z := {len(b.value.elts)}.\n"
+        f"(* if {ast.unparse(dif.test)}: {ast.unparse(db[0])} *)\n"
+        "Definition task_passes_decode_errors (decode_errors_truthy : bool) "
+        f": bool := {cond}.\n"
+        f"(* if {ast.unparse(rif.test)}: raise *)\n"
+        "Definition resultsmanager_rejects (queue_given collection_given : "
+        f"bool) : bool :=\n  {rcond}.\n")
+
+
 ITEMS = [
     ('simple_flush_test', 'searchkit/task.py', simple_search),
     ('flush_expressions', 'searchkit/task.py', flush),
     ('enumerate_start', 'searchkit/task.py', run_search),
     ('store_result_ranges', 'searchkit/result.py', store_result),
     ('apply_single_updates', 'searchkit/search.py', apply_single),
+    ('searchdef_run_tests', 'searchkit/searchdef.py', searchdef_run),
+    ('searchdef_init', 'searchkit/searchdef.py', searchdef_init),
+    ('searchdefbase', 'searchkit/searchdef.py', searchdefbase),
+    ('task_init', 'searchkit/task.py', task_init),
 ]
 
 
@@ -330,6 +575,6 @@ def generate(repo):
             failed.append((f"task:{name}", f"{type(exc).__name__}: {exc}"))
     text = ("(* GENERATED from the repository working tree by "
             "translator/plugins/task.py - do not edit *)\n"
-            "From Coq Require Import ZArith Bool.\n"
+            "From Coq Require Import ZArith Bool List.\nImport ListNotations.\n"
             "Open Scope Z_scope.\n\n" + "\n".join(parts))
     return text, info, failed
